@@ -1255,6 +1255,88 @@ func init() {
 		*c = a[1]
 		return old
 	})
+	// sync.Map: the real one is built on atomic pointers and unsafe; the engine keeps an association list per Map
+	syncMapOf := func(fr *frame, p value) *[]*amapEnt {
+		px := fr.i.px
+		if px.syncMaps == nil {
+			px.syncMaps = map[value]*[]*amapEnt{}
+		}
+		m := px.syncMaps[p]
+		if m == nil {
+			m = &[]*amapEnt{}
+			px.syncMaps[p] = m
+		}
+		return m
+	}
+	syncMapFind := func(fr *frame, m *[]*amapEnt, k value) *amapEnt {
+		for _, e := range *m {
+			if !e.deleted && fr.i.px.BranchV(fr, equalsV(fr, nil, e.k, k)) {
+				return e
+			}
+		}
+		return nil
+	}
+	reg("(*sync.Map).Load", func(fr *frame, a []value) value {
+		if e := syncMapFind(fr, syncMapOf(fr, a[0]), a[1]); e != nil {
+			return tuple{e.v, true}
+		}
+		return tuple{iface{}, false}
+	})
+	reg("(*sync.Map).Store", func(fr *frame, a []value) value {
+		m := syncMapOf(fr, a[0])
+		if e := syncMapFind(fr, m, a[1]); e != nil {
+			e.v = a[2]
+		} else {
+			*m = append(*m, &amapEnt{k: a[1], v: a[2]})
+		}
+		return nil
+	})
+	reg("(*sync.Map).LoadOrStore", func(fr *frame, a []value) value {
+		m := syncMapOf(fr, a[0])
+		if e := syncMapFind(fr, m, a[1]); e != nil {
+			return tuple{e.v, true}
+		}
+		*m = append(*m, &amapEnt{k: a[1], v: a[2]})
+		return tuple{a[2], false}
+	})
+	reg("(*sync.Map).LoadAndDelete", func(fr *frame, a []value) value {
+		if e := syncMapFind(fr, syncMapOf(fr, a[0]), a[1]); e != nil {
+			e.deleted = true
+			return tuple{e.v, true}
+		}
+		return tuple{iface{}, false}
+	})
+	reg("(*sync.Map).Delete", func(fr *frame, a []value) value {
+		if e := syncMapFind(fr, syncMapOf(fr, a[0]), a[1]); e != nil {
+			e.deleted = true
+		}
+		return nil
+	})
+	reg("(*sync.Map).Swap", func(fr *frame, a []value) value {
+		m := syncMapOf(fr, a[0])
+		if e := syncMapFind(fr, m, a[1]); e != nil {
+			old := e.v
+			e.v = a[2]
+			return tuple{old, true}
+		}
+		*m = append(*m, &amapEnt{k: a[1], v: a[2]})
+		return tuple{iface{}, false}
+	})
+	reg("(*sync.Map).Range", func(fr *frame, a []value) value {
+		for _, e := range append([]*amapEnt{}, *syncMapOf(fr, a[0])...) {
+			if e.deleted {
+				continue
+			}
+			if ok, _ := call(fr.i, fr, 0, a[1], []value{e.k, e.v}).(bool); !ok {
+				break
+			}
+		}
+		return nil
+	})
+	reg("(*sync.Map).Clear", func(fr *frame, a []value) value {
+		*syncMapOf(fr, a[0]) = nil
+		return nil
+	})
 	// escape-analysis helper: pointer -> uintptr -> pointer round trip
 	reg("internal/abi.NoEscape", func(fr *frame, a []value) value { return a[0] })
 	reg("(*strings.Builder).copyCheck", noop)
